@@ -12,6 +12,8 @@ import NV.C04.LemmasCost
 import NV.C04.LemmasSizes
 import NV.C04.LemmasStack
 import NV.C04.MapBook
+import NV.C04.LemmasSave
+import NV.C04.LemmasLoop
 
 namespace NV.C04
 
@@ -224,12 +226,101 @@ theorem array_size_exact (n l : Int) (sz : Nat) (hl : LimitOk l) (h16 : l < 2 ^ 
 /-- **map_count_exact**: for every sequence of inserts and in-place `m += m2` on a mapping - including the ones that
     fail with "Mapping too large" after linking some of the nodes - what `sizeof (m)` and every later size test read
     (`count`) is the number of nodes the mapping holds, and that number is within the limit. -/
-theorem map_count_exact (limit : Int) (h0 : 0 ≤ limit) (ops : List MapOp) :
-    MapOk limit (mapRun limit ops { count := 0, nodes := 0 }).2 :=
-  mapRun_ok limit ops _ ⟨rfl, by simpa using h0⟩
+theorem map_count_exact (limit : Int) (hl : LimitOk limit) (ops : List MapOp) :
+    MapOk limit (mapRun limit ops { count := 0, nodes := 0 }).2 := by
+  -- round 4: the operations include `m *= m2` (compose_mapping); its `deleted` counter is wide enough for every
+  -- limit a C int can hold (before fix 5334d17 it was 16 bits wide: Witness.compose_count_wraps_16)
+  have hw : limit < 2 ^ composeDeletedBits := by
+    have : (2 : Int) ^ composeDeletedBits = 4294967296 := by decide
+    rw [this]; have := hl.2; omega
+  exact mapRun_ok limit ops _ ⟨rfl, by simpa using hl.1⟩ hw
 
 example : mapRun 20 [.insert true, .absorb 15, .absorb 10, .insert true, .insert false] { count := 0, nodes := 0 } =
     ([false, false, true, true, false], { count := 20, nodes := 20 }) := by decide
+
+example : mapRun 20 [.absorb 15, .compose 4, .insert true, .compose 0] { count := 0, nodes := 0 } =
+    ([false, false, false, false], { count := 0, nodes := 0 }) := by decide
+
+/-! ### round 4: mapping * mapping, save_variable / restore_variable, regexp / reg_assoc; depth-limited walks; where the
+    evaluation cost is charged -/
+
+/-- **sizes_bounded_round4**.  The constructors that were outside the proved table: `m1 * m2` / `m1 *= m2`
+    (never larger than the left operand), regexp (string *, ...) with and without the index flag, both result arrays of
+    reg_assoc, the arrays and mappings restore_variable rebuilds, and the text save_variable returns - each an error or
+    within the limit of its type, for all operands. -/
+theorem sizes_bounded_round4 (l : Int) (hl : LimitOk l) :
+    (∀ (c1 kept sz : Nat), (c1 : Int) ≤ l → composeMapping c1 kept = .ok sz → (sz : Int) ≤ l) ∧
+    (∀ matched flag sz, matchRegexp matched flag l = .ok sz → (sz : Int) ≤ l) ∧
+    (∀ m sz, regAssoc m l = .ok sz → (sz : Int) ≤ l) ∧
+    (∀ n sz, restoreArray n l = .ok sz → (sz : Int) ≤ l) ∧
+    (∀ n sz, restoreMapping n l = .ok sz → (sz : Int) ≤ l) ∧
+    (∀ v sz, saveVariable v l = .ok sz → (sz : Int) ≤ l) :=
+  ⟨fun _ _ _ hc h => by have := composeMappingW_le h; omega,
+   fun _ _ _ h => allocateArray_bounded hl h,
+   fun _ _ h => allocateArray_bounded hl h,
+   fun _ _ h => allocateArray_bounded hl h,
+   fun _ _ h => mapInsertMany_bounded (by have := hl.1; omega) h,
+   fun _ _ h => saveVariable_bounded hl h⟩
+
+/-- what `sizeof (m1 * m2)` reports is the number of nodes that stayed, for every mapping a C int limit allows -/
+theorem compose_count_exact (l : Int) (hl : LimitOk l) (c1 kept : Nat) (hc : (c1 : Int) ≤ l) :
+    composeMapping c1 kept = .ok (min kept c1) := by
+  apply composeMapping_exact
+  have : (2 : Nat) ^ composeDeletedBits = 4294967296 := by decide
+  rw [this]; have := hl.2; omega
+
+example : composeMapping 70000 0 = .ok 0 := by decide
+example : saveVariable (valZeros 48) 100 = .ok 100 ∧ saveVariable (valZeros 49) 100 = .err := by decide
+example : matchRegexp 51 1 100 = .err ∧ matchRegexp 50 1 100 = .ok 100 ∧ regAssoc 50 100 = .err := by decide
+
+/-- **save_depth_bounded** (recursion depth of the value walks).  svalue_save_size - and deep_copy_svalue, which makes
+    the same test on the same constant - never works on more than MAX_SAVE_SVALUE_DEPTH containers inside each other,
+    whatever the value: the walk is refused exactly when the value nests deeper, and its depth counter stays within
+    the limit on the error path too. -/
+theorem save_depth_bounded (v : Val) :
+    saveReach 0 v ≤ maxSaveDepth ∧
+    ((saveSize 0 v).isSome = true ↔ v.nest ≤ maxSaveDepth) ∧ (deepCopyOk 0 v = true ↔ v.nest ≤ maxSaveDepth) := by
+  have h := saveSize_isSome v 0
+  refine ⟨saveReach_le v 0 (Nat.zero_le _), ?_, ?_⟩
+  · rw [h]; omega
+  · unfold deepCopyOk; rw [h]; omega
+
+example : (saveSize 0 (valNested 24)).isSome = true ∧ (saveSize 0 (valNested 25)).isSome = false ∧
+    saveReach 0 (valNested 40) = 25 := by decide
+
+/-- **loop_iterations_charged** (every backward jump, call and loop-efun callback costs at least one tick).  For every
+    byte-code program, every sequence of branch decisions and every number of interpreter turns, started with a budget
+    of at least 1 (what rc.cpp / set_eval_limit guarantee): backward jumps taken + functions entered + callbacks made
+    never exceed the ticks charged, the ticks charged never exceed the budget, and a run that expired used exactly the
+    budget.  The charge of a fetch (`fetchCharge`) is built from the facts regenerated from src/interpret.c. -/
+theorem loop_iterations_charged (budget : Int) (hb : 1 ≤ budget) (prog : Array Ins) (orc : Nat → Bool) (fuel : Nat) :
+    let r := lrun prog orc fuel (LSt.start budget)
+    r.2.backs + r.2.calls + r.2.cbs ≤ r.2.ticks ∧ (r.2.ticks : Int) ≤ budget ∧
+    (r.1 = .expired → (r.2.ticks : Int) = budget) := by
+  have hi : LInv budget (LSt.start budget) := ⟨by simp [LSt.start], by simp [LSt.start]⟩
+  have h := lrun_spec budget prog orc fuel (LSt.start budget) hi (by show 0 < budget; omega)
+  obtain ⟨⟨h1, h2⟩, h3⟩ := h
+  refine ⟨h1, ?_, ?_⟩
+  · rcases h3 with ⟨_, y⟩ | ⟨_, y⟩ <;> omega
+  · intro he
+    rcases h3 with ⟨_, y⟩ | ⟨x, _⟩
+    · omega
+    · exact absurd he x
+
+/-- a spinning loop `L: bbranch L` under a budget of 50 expires after exactly 50 backward jumps' worth of ticks -/
+example : (lrun #[.back 0 1] (fun _ => true) 1000 (LSt.start 50)).1 = .expired ∧
+    (lrun #[.back 0 1] (fun _ => true) 1000 (LSt.start 50)).2.ticks = 50 ∧
+    (lrun #[.back 0 1] (fun _ => true) 1000 (LSt.start 50)).2.backs = 49 := by decide
+
+/-- the backward-branch opcodes of the current source are the ones the model knows, none of them loops inside its own
+    case, the test stands before the dispatch with no goto around it, and the two local call opcodes are the known ones -/
+theorem bridge_backwardOps :
+    backwardOps = modelBackwardOps ∧ backwardOpsLooping = [] ∧ tickBeforeDispatch = true ∧ evalLoopGotos = 0 ∧
+    localCallOps = ["F_CALL_FUNCTION_BY_ADDRESS", "F_CALL_INHERITED"] ∧ fetchCharge = 1 ∧ callbackCharge = 1 :=
+  ⟨rfl, rfl, rfl, rfl, rfl, fetchCharge_one, callbackCharge_one⟩
+
+/-- the constants of the value walks and of compose_mapping's counter -/
+theorem bridge_saveWalk : maxSaveDepth = 25 ∧ saveBoxOverhead = 5 ∧ composeDeletedBits = 32 := by decide
 
 /-! ### bridging lemmas: the literals of the model are the constants found in the source (NV/Gen/C04.lean is
     regenerated from the guard sites on every run; a changed constant breaks these obligations) -/
@@ -253,5 +344,10 @@ theorem bridge_esBits : esStackFull = 1 ∧ esMaxEvalCost = 2 ∧ esStackFull &&
 
 /-- the `size` field widths behind `toArrSize` / `toBufSize`, and sprintf's buffer bound -/
 theorem bridge_widths : arraySizeBits = 16 ∧ bufferCastBits = 16 ∧ ushrtMax = 2 ^ 16 - 1 := by decide
+
+/-- the `(int)` cast of set_eval_limit and the `unsigned short` element count of F_AGGREGATE, as the model computes them -/
+theorem bridge_casts : intBits = 32 ∧ aggregateCountBits = 16 ∧
+    toInt32 4294967296 = 0 ∧ toInt32 2147483648 = -2147483648 ∧ toInt32 (-5) = -5 ∧
+    aggregateArray 65537 100 = .ok 1 := by decide
 
 end NV.C04
